@@ -1,0 +1,268 @@
+//go:build verif
+
+// Contracts for the verification machinery in /verif (comment-only; no declarations).
+// C11: circuit relay v2 honours reservations, ACL, caps and per-circuit limits.
+
+package relay
+
+//@ func isRelayAddr
+//@ prop C11
+//@ trusted
+//@ pure
+
+// Monitor invariant of Relay.mx: a peer is listed in conns exactly while it has at least one circuit, and exactly those
+// peers carry the relay's hop tag (ghost.hoptag, see /verif/specs/libp2p.spec).
+//@ lockinv Relay.mx(r *Relay) = forall q peer.ID :: (has(r.conns, q) ==> r.conns[q] > 0) && (ghost.hoptag(q) <==> has(r.conns, q))
+
+//@ func (r *Relay) addConn
+//@ prop C11
+//@ ensures r.conns[p] == old(r.conns[p]) + 1 && has(r.conns, p)
+//@ ensures forall q peer.ID :: q != p ==> r.conns[q] == old(r.conns[q]) && has(r.conns, q) == old(has(r.conns, q))
+//@ ensures old(r.conns[p]) == 0 ==> called(TagPeer, 0) && arg(TagPeer, 0, 1) == p && arg(TagPeer, 0, 2) == relayHopTag
+//@ ensures old(r.conns[p]) != 0 ==> !called(TagPeer, 0)
+//@ ensures old(r.conns[p]) == 0 ==> ghost.hoptag(p)
+//@ ensures old(r.conns[p]) != 0 ==> ghost.hoptag(p) == old(ghost.hoptag(p))
+//@ ensures forall q peer.ID :: q != p ==> ghost.hoptag(q) == old(ghost.hoptag(q))
+//@ modifies contents(r.conns), ghost.hoptag(p)
+
+//@ func (r *Relay) rmConn
+//@ prop C11
+//@ ensures old(r.conns[p]) > 1 ==> r.conns[p] == old(r.conns[p]) - 1 && has(r.conns, p)
+//@ ensures old(r.conns[p]) <= 1 ==> !has(r.conns, p) && r.conns[p] == 0
+//@ ensures old(r.conns[p]) > 1 ==> !called(UntagPeer, 0)
+//@ ensures old(r.conns[p]) <= 1 ==> called(UntagPeer, 0) && arg(UntagPeer, 0, 1) == p && arg(UntagPeer, 0, 2) == relayHopTag
+//@ ensures forall q peer.ID :: q != p ==> r.conns[q] == old(r.conns[q]) && has(r.conns, q) == old(has(r.conns, q))
+//@ ensures old(r.conns[p]) <= 1 ==> !ghost.hoptag(p)
+//@ ensures old(r.conns[p]) > 1 ==> ghost.hoptag(p) == old(ghost.hoptag(p))
+//@ ensures forall q peer.ID :: q != p ==> ghost.hoptag(q) == old(ghost.hoptag(q))
+//@ modifies contents(r.conns), ghost.hoptag(p)
+
+// ---------------------------------------------------------------------------
+// reservation constraints (total / per-IP / per-ASN lists of {peer, expiry})
+
+//@ func (c *constraints) cleanup
+//@ prop C11
+//@ ensures len(c.total) <= len(old(c.total))
+//@ ensures forall j int :: 0 <= j && j < len(c.total) ==> !(c.total[j].Expiry < now)
+//@ ensures forall k string :: len(c.ips[k]) <= len(old(c.ips[k]))
+//@ ensures forall k uint32 :: len(c.asns[k]) <= len(old(c.asns[k]))
+//@ ensures forall k string :: has(c.ips, k) ==> len(c.ips[k]) > 0 && old(has(c.ips, k))
+//@ ensures forall k uint32 :: has(c.asns, k) ==> len(c.asns[k]) > 0 && old(has(c.asns, k))
+//@ loop 0 invariant forall x string :: len(c.ips[x]) <= len(old(c.ips[x]))
+//@ loop 0 invariant forall x string :: has(c.ips, x) ==> old(has(c.ips, x))
+//@ loop 0 invariant forall x string :: visited(0, x) && has(c.ips, x) ==> len(c.ips[x]) > 0
+//@ loop 1 invariant forall x uint32 :: len(c.asns[x]) <= len(old(c.asns[x]))
+//@ loop 1 invariant forall x uint32 :: has(c.asns, x) ==> old(has(c.asns, x))
+//@ loop 1 invariant forall x uint32 :: visited(1, x) && has(c.asns, x) ==> len(c.asns[x]) > 0
+//@ modifies c.total, contents(c.ips), contents(c.asns)
+
+//@ func (c *constraints) cleanupPeer
+//@ prop C11
+//@ ensures len(c.total) <= len(old(c.total))
+//@ ensures forall j int :: 0 <= j && j < len(c.total) ==> c.total[j].Peer != p
+//@ ensures forall k string :: len(c.ips[k]) <= len(old(c.ips[k]))
+//@ ensures forall k uint32 :: len(c.asns[k]) <= len(old(c.asns[k]))
+//@ ensures forall k string :: has(c.ips, k) ==> len(c.ips[k]) > 0 && old(has(c.ips, k))
+//@ ensures forall k uint32 :: has(c.asns, k) ==> len(c.asns[k]) > 0 && old(has(c.asns, k))
+//@ loop 0 invariant forall x string :: len(c.ips[x]) <= len(old(c.ips[x]))
+//@ loop 0 invariant forall x string :: has(c.ips, x) ==> old(has(c.ips, x))
+//@ loop 0 invariant forall x string :: visited(0, x) && has(c.ips, x) ==> len(c.ips[x]) > 0
+//@ loop 1 invariant forall x uint32 :: len(c.asns[x]) <= len(old(c.asns[x]))
+//@ loop 1 invariant forall x uint32 :: has(c.asns, x) ==> old(has(c.asns, x))
+//@ loop 1 invariant forall x uint32 :: visited(1, x) && has(c.asns, x) ==> len(c.asns[x]) > 0
+//@ modifies c.total, contents(c.ips), contents(c.asns)
+
+//@ func (c *constraints) Reserve
+//@ prop C11
+//@ ensures result == nil ==> len(c.total) <= c.rc.MaxReservations
+//@ ensures result == nil ==> nth(manet.ToIP(a), 1) == nil
+//@ ensures result == nil ==> called(ToIP, 0) && ip == nth(manet.ToIP(a), 0) && len(c.ips[ip.String()]) <= c.rc.MaxReservationsPerIP
+//@ ensures result == nil && asn != 0 ==> called(AsnForIPv6, 0) && asn == ret(AsnForIPv6, 0, 0) && len(c.asns[asn]) <= c.rc.MaxReservationsPerASN
+//@ ensures result == nil && asn == 0 ==> called(ToIP, 0) && forall k uint32 :: len(c.asns[k]) <= len(old(c.asns[k]))
+//@ ensures result == nil ==> len(c.total) >= 1 && c.total[len(c.total)-1].Peer == p && c.total[len(c.total)-1].Expiry == expiry
+//@ ensures result == nil ==> forall j int :: 0 <= j && j < len(c.total) - 1 ==> c.total[j].Peer != p
+//@ ensures result == nil ==> len(c.total) <= len(old(c.total)) + 1
+//@ ensures result == nil ==> forall k string :: len(c.ips[k]) <= len(old(c.ips[k])) + 1
+//@ ensures result == nil ==> forall k uint32 :: len(c.asns[k]) <= len(old(c.asns[k])) + 1
+//@ ensures result == nil ==> called(ToIP, 0) && forall k string :: k != ip.String() ==> len(c.ips[k]) <= len(old(c.ips[k]))
+//@ ensures result != nil ==> len(c.total) <= len(old(c.total))
+//@ ensures result != nil ==> forall k string :: len(c.ips[k]) <= len(old(c.ips[k]))
+//@ ensures result != nil ==> forall k uint32 :: len(c.asns[k]) <= len(old(c.asns[k]))
+//@ modifies c.total, contents(c.ips), contents(c.asns)
+
+// ---------------------------------------------------------------------------
+// hop protocol: CONNECT
+
+//@ func (r *Relay) handleConnect
+//@ prop C11
+//@ ensures result == pbv2.Status_OK ==> !isRelayAddr(s.Conn().RemoteMultiaddr())
+//@ ensures result == pbv2.Status_OK && r.acl != nil ==> called(AllowConnect, 0) && ret(AllowConnect, 0, 0) &&
+//@         arg(AllowConnect, 0, 1) == s.Conn().RemotePeer() && arg(AllowConnect, 0, 2) == s.Conn().RemoteMultiaddr() &&
+//@         arg(AllowConnect, 0, 3) == dest.ID
+//@ ensures result == pbv2.Status_OK ==> src == s.Conn().RemotePeer() && ret(PeerToPeerInfoV2, 0, 1) == nil && has(r.rsvp, dest.ID)
+//@ ensures forall q peer.ID :: has(r.rsvp, q) == old(has(r.rsvp, q)) && r.rsvp[q] == old(r.rsvp[q])
+//@ ensures result == pbv2.Status_OK ==> called(addConn, 0) && forall q peer.ID :: q == src || q == dest.ID ==> old(r.conns[q]) < r.rc.MaxCircuits
+//@ ensures result == pbv2.Status_OK && src != dest.ID ==> called(addConn, 0) && forall q peer.ID :: q == src || q == dest.ID ==> r.conns[q] == old(r.conns[q]) + 1
+//@ ensures result == pbv2.Status_OK && src == dest.ID ==> called(addConn, 1) && forall q peer.ID :: q == src ==> r.conns[q] == old(r.conns[q]) + 2
+//@ ensures result == pbv2.Status_OK ==> called(addConn, 1) && forall q peer.ID :: q != src && q != dest.ID ==> r.conns[q] == old(r.conns[q]) && has(r.conns, q) == old(has(r.conns, q))
+//@ ensures result != pbv2.Status_OK ==> forall q peer.ID :: r.conns[q] == old(r.conns[q]) && has(r.conns, q) == old(has(r.conns, q))
+//@ ensures result != pbv2.Status_OK ==> forall q peer.ID :: ghost.hoptag(q) == old(ghost.hoptag(q))
+//@ ensures result != pbv2.Status_OK && ret(BeginSpan, 0, 1) == nil ==> ghost.done(span)
+//@ ensures result != pbv2.Status_OK && called(NewStream, 0) && ret(NewStream, 0, 1) == nil ==> ghost.reset(bs)
+//@ ensures called(ReserveMemory, 1) && ret(ReserveMemory, 1, 0) == nil ==> arg(ReserveMemory, 1, 1) == maxMessageSize &&
+//@         called(ReleaseMemory, 0) && arg(ReleaseMemory, 0, 1) == maxMessageSize && arg(Scope, 1, 0) == bs && arg(Scope, 2, 0) == bs &&
+//@         arg(ReserveMemory, 1, 0) == ret(Scope, 1, 0) && arg(ReleaseMemory, 0, 0) == ret(Scope, 2, 0)
+//@ ensures called(ReserveMemory, 1) && ret(ReserveMemory, 1, 0) != nil ==> !called(ReleaseMemory, 0)
+//@ ensures result == pbv2.Status_OK ==> called(NewStream, 0) && ret(NewStream, 0, 1) == nil && arg(NewStream, 0, 2) == dest.ID &&
+//@         called(WriteMsg, 0) && ret(WriteMsg, 0, 0) == nil && called(ReadMsg, 0) && ret(ReadMsg, 0, 0) == nil &&
+//@         ret(GetType, 0, 0) == pbv2.StopMessage_STATUS && ret(GetStatus, 0, 0) == pbv2.Status_OK && called(WriteMsg, 1) && ret(WriteMsg, 1, 0) == nil
+//@ ensures result == pbv2.Status_OK && r.rc.Limit != nil ==> called(SetDeadline, 2) && arg(SetDeadline, 2, 0) == s &&
+//@         arg(SetDeadline, 2, 1) == ret(Now, 2, 0) + r.rc.Limit.Duration && called(SetDeadline, 3) && arg(SetDeadline, 3, 0) == bs &&
+//@         arg(SetDeadline, 3, 1) == arg(SetDeadline, 2, 1)
+//@ ensures result == pbv2.Status_OK && r.rc.Limit != nil ==> ncalls(relayLimited, 0) == 1 && ncalls(relayLimited, 1) == 1 && !called(relayUnlimited, 0) && !called(relayUnlimited, 1)
+//@ ensures result == pbv2.Status_OK && r.rc.Limit != nil ==> arg(relayLimited, 0, 0) == r && arg(relayLimited, 0, 1) == s && arg(relayLimited, 0, 2) == bs &&
+//@         arg(relayLimited, 0, 5) == r.rc.Limit.Data && arg(relayLimited, 1, 0) == r && arg(relayLimited, 1, 1) == bs && arg(relayLimited, 1, 2) == s &&
+//@         arg(relayLimited, 1, 5) == r.rc.Limit.Data
+//@ ensures result == pbv2.Status_OK && r.rc.Limit == nil ==> ncalls(relayUnlimited, 0) == 1 && ncalls(relayUnlimited, 1) == 1 && !called(relayLimited, 0) && !called(relayLimited, 1)
+//@ ensures result != pbv2.Status_OK ==> !called(relayLimited, 0) && !called(relayLimited, 1) && !called(relayUnlimited, 0) && !called(relayUnlimited, 1)
+//@ ensures result == pbv2.Status_OK ==> called(Store, 0) && arg(Store, 0, 1) == 2
+//@ ensures result == pbv2.Status_OK ==> arg(NewStream, 0, 0) == r.host && arg(NewStream, 0, 1) == ret(WithNoDial, 0, 0)
+//@ ensures result == pbv2.Status_OK ==> arg(ReserveMemory, 0, 0) == span && arg(ReserveMemory, 0, 1) == 2*r.rc.BufferSize && ret(ReserveMemory, 0, 0) == nil
+//@ noframe
+// closure 1 = cleanup (runs when the circuit ends): both counters go down by one, entries vanish at zero, the span is released
+//@ closure 1
+//@ ensures ghost.done(span)
+//@ ensures src != dest.ID ==> forall q peer.ID :: q == src || q == dest.ID ==>
+//@         (old(r.conns[q]) > 1 ==> r.conns[q] == old(r.conns[q]) - 1) && (old(r.conns[q]) <= 1 ==> !has(r.conns, q))
+//@ ensures src == dest.ID ==> forall q peer.ID :: q == src ==>
+//@         (old(r.conns[q]) > 2 ==> r.conns[q] == old(r.conns[q]) - 2) && (old(r.conns[q]) <= 2 ==> !has(r.conns, q))
+//@ ensures forall q peer.ID :: q != src && q != dest.ID ==> r.conns[q] == old(r.conns[q]) && has(r.conns, q) == old(has(r.conns, q))
+//@ ensures called(rmConn, 0) && arg(rmConn, 0, 1) == src && called(rmConn, 1) && arg(rmConn, 1, 1) == dest.ID
+//@ noframe
+// closure 3 = done (deferred by each of the two relay goroutines): the last one to finish closes both streams and runs cleanup
+//@ closure 3
+//@ ensures ncalls(Add, 0) == 1 && arg(Add, 0, 1) == -1
+//@ ensures ret(Add, 0, 0) == 0 ==> ncalls(cleanup, 0) == 1 && called(Close, 0) && arg(Close, 0, 0) == s && called(Close, 1) && arg(Close, 1, 0) == bs
+//@ ensures ret(Add, 0, 0) != 0 ==> !called(cleanup, 0) && !called(Close, 0) && !called(Close, 1)
+//@ noframe
+
+// ---------------------------------------------------------------------------
+// hop protocol: RESERVE
+
+//@ func (r *Relay) handleReserve
+//@ prop C11
+//@ ensures result == pbv2.Status_OK ==> !isRelayAddr(s.Conn().RemoteMultiaddr())
+//@ ensures result == pbv2.Status_OK && r.acl != nil ==> called(AllowReserve, 0) && ret(AllowReserve, 0, 0) &&
+//@         arg(AllowReserve, 0, 1) == s.Conn().RemotePeer() && arg(AllowReserve, 0, 2) == s.Conn().RemoteMultiaddr()
+//@ ensures result == pbv2.Status_OK ==> !r.closed
+//@ ensures result == pbv2.Status_OK ==> p == s.Conn().RemotePeer() && a == s.Conn().RemoteMultiaddr() && expire == ret(Now, 0, 0) + r.rc.ReservationTTL
+//@ ensures result == pbv2.Status_OK ==> called(Reserve, 0) && ret(Reserve, 0, 0) == nil && arg(Reserve, 0, 0) == r.constraints &&
+//@         arg(Reserve, 0, 1) == p && arg(Reserve, 0, 2) == a && arg(Reserve, 0, 3) == expire
+//@ ensures result == pbv2.Status_OK ==> called(Reserve, 0) && has(r.rsvp, p) && r.rsvp[p] == expire
+//@ ensures result == pbv2.Status_OK ==> len(r.constraints.total) <= r.constraints.rc.MaxReservations
+//@ ensures result == pbv2.Status_OK ==> called(TagPeer, 0) && arg(TagPeer, 0, 1) == p && arg(TagPeer, 0, 2) == "relay-reservation"
+//@ ensures called(Reserve, 0) && ret(Reserve, 0, 0) == nil ==> forall q peer.ID :: q != p ==> has(r.rsvp, q) == old(has(r.rsvp, q)) && r.rsvp[q] == old(r.rsvp[q])
+//@ ensures !(called(Reserve, 0) && ret(Reserve, 0, 0) == nil) ==> forall q peer.ID :: has(r.rsvp, q) == old(has(r.rsvp, q)) && r.rsvp[q] == old(r.rsvp[q])
+//@ ensures !(called(Reserve, 0) && ret(Reserve, 0, 0) == nil) ==> result != pbv2.Status_OK && !called(TagPeer, 0) && !called(makeReservationMsg, 0)
+//@ ensures result == pbv2.Status_OK ==> called(makeReservationMsg, 0) && arg(makeReservationMsg, 0, 4) == p && arg(makeReservationMsg, 0, 5) == expire &&
+//@         arg(makeReservationMsg, 0, 2) == r.host.ID() && arg(makeReservationMsg, 0, 1) == ret(PrivKey, 0, 0) && arg(PrivKey, 0, 1) == r.host.ID() &&
+//@         arg(PrivKey, 0, 0) == r.host.Peerstore()
+//@ ensures result == pbv2.Status_OK ==> called(writeResponse, 0) && ret(writeResponse, 0, 0) == nil && arg(writeResponse, 0, 1) == s &&
+//@         arg(writeResponse, 0, 2) == pbv2.Status_OK && arg(writeResponse, 0, 3) == ret(makeReservationMsg, 0, 0)
+//@ ensures forall q peer.ID :: r.conns[q] == old(r.conns[q]) && has(r.conns, q) == old(has(r.conns, q)) && ghost.hoptag(q) == old(ghost.hoptag(q))
+//@ ensures called(Close, 0) && arg(Close, 0, 0) == s
+//@ noframe
+
+//@ func makeReservationMsg
+//@ prop C11
+//@ ensures result != nil
+//@ ensures result.Voucher != nil ==> called(Seal, 0) && ret(Seal, 0, 1) == nil && arg(Seal, 0, 0) == voucher && arg(Seal, 0, 1) == signingKey &&
+//@         called(Marshal, 0) && arg(Marshal, 0, 0) == ret(Seal, 0, 0) && ret(Marshal, 0, 1) == nil && result.Voucher == ret(Marshal, 0, 0)
+//@ ensures result.Voucher != nil ==> called(Seal, 0) && voucher.Relay == selfID && voucher.Peer == p && voucher.Expiration == expire
+//@ modifies nothing
+
+// ---------------------------------------------------------------------------
+// reservations disappear: disconnect notification and periodic collection
+
+//@ func (r *Relay) gc
+//@ prop C11
+//@ ensures forall q peer.ID :: has(r.rsvp, q) ==> old(has(r.rsvp, q)) && r.rsvp[q] == old(r.rsvp[q])
+//@ ensures forall q peer.ID :: has(r.rsvp, q) ==> !r.closed && !(r.rsvp[q] < now)
+//@ ensures forall q peer.ID :: old(has(r.rsvp, q)) && !has(r.rsvp, q) ==> r.closed || old(r.rsvp[q]) < now
+//@ ensures now == ret(Now, 0, 0)
+//@ ensures forall q peer.ID :: r.conns[q] == old(r.conns[q]) && has(r.conns, q) == old(has(r.conns, q))
+//@ loop 0 invariant forall q peer.ID :: has(r.rsvp, q) ==> old(has(r.rsvp, q)) && r.rsvp[q] == old(r.rsvp[q])
+//@ loop 0 invariant forall q peer.ID :: visited(0, q) && has(r.rsvp, q) ==> !r.closed && !(r.rsvp[q] < now)
+//@ loop 0 invariant forall q peer.ID :: old(has(r.rsvp, q)) && !has(r.rsvp, q) ==> r.closed || old(r.rsvp[q]) < now
+//@ loop 0 invariant forall q peer.ID :: r.conns[q] == old(r.conns[q]) && has(r.conns, q) == old(has(r.conns, q)) && ghost.hoptag(q) == old(ghost.hoptag(q))
+//@ loop 0 iteration !has(r.rsvp, p) ==> called(UntagPeer, 0) && arg(UntagPeer, 0, 1) == p && arg(UntagPeer, 0, 2) == "relay-reservation"
+//@ loop 1 invariant forall q peer.ID :: r.conns[q] == old(r.conns[q]) && has(r.conns, q) == old(has(r.conns, q))
+//@ loop 1 invariant forall q peer.ID :: has(r.rsvp, q) ==> old(has(r.rsvp, q)) && r.rsvp[q] == old(r.rsvp[q]) && !r.closed && !(r.rsvp[q] < now)
+//@ loop 1 invariant forall q peer.ID :: old(has(r.rsvp, q)) && !has(r.rsvp, q) ==> r.closed || old(r.rsvp[q]) < now
+//@ modifies contents(r.rsvp), contents(r.conns)
+
+//@ func (r *Relay) disconnected
+//@ prop C11
+//@ ensures called(Connectedness, 0) && arg(Connectedness, 0, 1) == c.RemotePeer()
+//@ ensures ret(Connectedness, 0, 0) != network.Connected ==> !has(r.rsvp, c.RemotePeer())
+//@ ensures ret(Connectedness, 0, 0) != network.Connected ==>
+//@         forall j int :: 0 <= j && j < len(r.constraints.total) ==> r.constraints.total[j].Peer != c.RemotePeer()
+//@ ensures forall q peer.ID :: q != c.RemotePeer() ==> has(r.rsvp, q) == old(has(r.rsvp, q)) && r.rsvp[q] == old(r.rsvp[q])
+//@ ensures ret(Connectedness, 0, 0) == network.Connected ==> forall q peer.ID :: has(r.rsvp, q) == old(has(r.rsvp, q)) && r.rsvp[q] == old(r.rsvp[q])
+//@ modifies contents(r.rsvp), r.constraints.total, contents(r.constraints.ips), contents(r.constraints.asns)
+
+// ---------------------------------------------------------------------------
+// data path
+
+//@ func (r *Relay) copyWithBuffer
+//@ prop C11
+//@ callsite Read#0 requires arg0 == src && arg1 == buf
+//@ callsite Write#0 requires arg0 == dst && arg1 == buf[0:nr]
+//@ loop 0 invariant err == nil && 0 <= written && written == ghost.consumed(src) - old(ghost.consumed(src))
+//@ loop 0 invariant forall x io.Reader :: x != src ==> ghost.consumed(x) == old(ghost.consumed(x))
+//@ ensures 0 <= written && written <= ghost.consumed(src) - old(ghost.consumed(src))
+//@ ensures err == nil ==> written == ghost.consumed(src) - old(ghost.consumed(src))
+//@ ensures forall x io.Reader :: x != src ==> ghost.consumed(x) == old(ghost.consumed(x))
+//@ modifies elems(buf), ghost.consumed(src)
+
+//@ func (r *Relay) relayLimited
+//@ prop C11
+//@ ensures called(LimitReader, 0) && arg(LimitReader, 0, 0) == src && arg(LimitReader, 0, 1) == limit && limitedSrc == ret(LimitReader, 0, 0)
+//@ ensures ncalls(copyWithBuffer, 0) == 1 && arg(copyWithBuffer, 0, 1) == dest && arg(copyWithBuffer, 0, 2) == limitedSrc &&
+//@         arg(copyWithBuffer, 0, 3) == ret(Get, 0, 0) && arg(Get, 0, 0) == r.rc.BufferSize
+//@ ensures 0 <= count && count <= ghost.consumed(limitedSrc)
+//@ ensures ghost.consumed(limitedSrc) <= limit ==> count <= limit
+//@ ensures err != nil ==> ghost.reset(src) && ghost.reset(dest)
+//@ ensures err == nil ==> called(CloseWrite, 0) && arg(CloseWrite, 0, 0) == dest
+//@ ensures err == nil && count == limit ==> called(CloseRead, 0) && arg(CloseRead, 0, 0) == src
+//@ ensures ncalls(done, 0) == 1 && called(Put, 0) && arg(Put, 0, 0) == ret(Get, 0, 0)
+//@ noframe
+
+//@ func (r *Relay) relayUnlimited
+//@ prop C11
+//@ ensures ncalls(copyWithBuffer, 0) == 1 && arg(copyWithBuffer, 0, 1) == dest && arg(copyWithBuffer, 0, 2) == src
+//@ ensures err != nil ==> ghost.reset(src) && ghost.reset(dest)
+//@ ensures err == nil ==> called(CloseWrite, 0) && arg(CloseWrite, 0, 0) == dest
+//@ ensures ncalls(done, 0) == 1 && called(Put, 0) && arg(Put, 0, 0) == ret(Get, 0, 0)
+//@ noframe
+
+// ---------------------------------------------------------------------------
+// stream handler: message buffer reservation is released on every path; one request per stream
+
+//@ func (r *Relay) handleStream
+//@ prop C11
+//@ ensures called(ReserveMemory, 0) && ret(ReserveMemory, 0, 0) == nil ==> arg(ReserveMemory, 0, 1) == maxMessageSize && arg(Scope, 1, 0) == s &&
+//@         called(ReleaseMemory, 0) && arg(ReleaseMemory, 0, 1) == maxMessageSize && arg(Scope, 2, 0) == s &&
+//@         arg(ReserveMemory, 0, 0) == ret(Scope, 1, 0) && arg(ReleaseMemory, 0, 0) == ret(Scope, 2, 0)
+//@ ensures !(called(ReserveMemory, 0) && ret(ReserveMemory, 0, 0) == nil) ==> !called(ReleaseMemory, 0) && !called(handleReserve, 0) && !called(handleConnect, 0)
+//@ ensures called(handleReserve, 0) ==> ret(ReadMsg, 0, 0) == nil && ret(GetType, 0, 0) == pbv2.HopMessage_RESERVE && arg(handleReserve, 0, 1) == s
+//@ ensures called(handleConnect, 0) ==> ret(ReadMsg, 0, 0) == nil && ret(GetType, 0, 0) == pbv2.HopMessage_CONNECT && arg(handleConnect, 0, 1) == s
+//@ ensures ncalls(handleReserve, 0) + ncalls(handleConnect, 0) <= 1
+//@ noframe
+
+// the limit advertised to both ends is the configured one (nil exactly on an unlimited relay)
+//@ func (r *Relay) makeLimitMsg
+//@ prop C11
+//@ ensures (result == nil) <==> (r.rc.Limit == nil)
+//@ ensures result != nil ==> result.Data != nil && result.Duration != nil
+//@ modifies nothing
